@@ -24,16 +24,36 @@ class Generate:
         return {"*": True}
 
 
-@contract(MG + "._convert", props=["C13", "C17"], verify=False)
+@contract(MG + "._convert", props=["C13", "C17", "C01"])
 class Convert:
-    """a model (plain dict of field types) with exactly the keys of the object; TypeError on a non-string key"""
-    sorts = {"data": "dict", "result": "dict"}
+    """C13: an object becomes a model with exactly its keys; the dict-keys-fields option applies to the direct value of a
+    named field only; C17: a non-string key is an error (TypeError)."""
+    sorts = {"data": "dict", "result": "dict", "fields": "dict", "dict_keys_fields": "set", "convert_dict": "bool"}
+
+    def requires(self, data):
+        return {"json_values": forall(data, lambda k: is_json(data[k])),
+                "registry_wf": registry_wf(self.str_types_registry)}
 
     def raises(self, data):
         return {"TypeError": True}
 
     def ensures(self, data, result):
-        return {"is_model": ty_is(result, dict), "same_keys": forall(data, lambda k: k in result) and forall(result, lambda k: k in data)}
+        return {
+            "is_model": ty_is(result, dict),
+            "same_keys": forall(data, lambda k: k in result) and forall(result, lambda k: k in data),
+            "all_keys_are_strings": forall(data, lambda k: ty_is(k, str)),
+            "field_types": forall(data, lambda k: result[k] is old(self._detect_type(data[k], not (k in self.dict_keys_fields)))),
+        }
+
+
+@loop(MG + "._convert", 1)
+def convert_loop(self, data, fields, _it, _seq):
+    return {
+        "model": ty_is(fields, dict),
+        "seen_in": forall(range(_it), lambda j: _seq[j] in fields and ty_is(_seq[j], str)
+                          and fields[_seq[j]] is old(self._detect_type(data[_seq[j]], not (_seq[j] in self.dict_keys_fields)))),
+        "only_seen": forall(fields, lambda k: exists(range(_it), lambda j: _seq[j] is k)),
+    }
 
 
 @contract(MG + "._detect_type", props=["C13", "C09"])
